@@ -42,6 +42,22 @@ mut("c04_sendmsg_forgets_headers_sent", "C04,C06", "internal/server/stream.go", 
 mut("c03_trailer_ok_rewrite_removed", "C03", "internal/server/stream.go", "\t\tif st.Code() == codes.OK {", "\t\tif false && st.Code() == codes.OK {")
 mut("c02_server_eof_on_error_status", "C02,C03", "internal/server/stream.go", "\t\tif st.GetCode() == int32(codes.OK) {\n\t\t\treturn io.EOF", "\t\tif st.GetCode() == int32(codes.OK) || st.GetCode() == int32(codes.Canceled) {\n\t\t\treturn io.EOF")
 
+mut("c15_unlocked_read_done", "C15", "internal/client/stream.go", "func (cs *clientStream) readErrorIfDone() (bool, error) {\n\tcs.protected.Lock()\n\tdefer cs.protected.Unlock()\n", "func (cs *clientStream) readErrorIfDone() (bool, error) {\n")
+mut("c15_plain_counter", "C15,C05", "internal/client/multiplexer.go", "\tstreamId := atomic.AddUint64(&rm.streamCounter, 1)\n\n\trespChan := make(chan *goatorepo.Rpc, 1)\n\tif err := rm.registerHandler(streamId, respChan); err != nil {\n\t\treturn 0,", "\trm.streamCounter++\n\tstreamId := rm.streamCounter\n\n\trespChan := make(chan *goatorepo.Rpc, 1)\n\tif err := rm.registerHandler(streamId, respChan); err != nil {\n\t\treturn 0,")
+mut("c15_clients_without_mutex", "C15", "proxy.go", "\tp.mutex.Lock()\n\tp.clients[id] = client\n\tp.mutex.Unlock()", "\tp.clients[id] = client")
+mut("c15_done_after_unlock", "C15,C13", "internal/client/stream.go", "\t\tcs.protected.done = true\n\t\tcs.protected.rErr = rErr", "\t\tcs.protected.rErr = rErr\n\t\tcs.protected.Unlock()\n\t\tcs.protected.done = true\n\t\tcs.protected.Lock()")
+mut("c15_streams_read_unlocked", "C15", "server.go", "func (h *handler) cancelAndWaitForStreams() {\n\th.mu.Lock()\n\tfor len(h.streams) > 0 {", "func (h *handler) cancelAndWaitForStreams() {\n\tfor len(h.streams) > 0 {\n\t\th.mu.Lock()")
+mut("c18_cancel_keeps_entry", "C18", "demux.go", "\tdelete(gsd.conns.value, id)\n}", "}")
+mut("c18_run_lookup_wrong_key", "C18", "demux.go", "\tconn, ok := gsd.conns.value[id]", "\tconn, ok := gsd.conns.value[id+\"x\"]")
+mut("c19_ws_text_accepted", "C19", "websocket.go", "\tif typ != websocket.MessageBinary {\n\t\treturn nil, errNonBinaryWebsocketMessage\n\t}\n", "\t_ = errNonBinaryWebsocketMessage\n\t_ = typ\n")
+mut("c19_ws_write_text", "C19", "websocket.go", "return ws.conn.Write(ctx, websocket.MessageBinary, data)", "return ws.conn.Write(ctx, websocket.MessageText, data)")
+mut("c19_http_deliver_before_source_check", "C19", "http.go", "\tif rpc.Header == nil || rpc.Header.Source == \"\" {", "\tif rpc.Header == nil {")
+mut("c19_chan_write_blocking", "C19", "channel.go", "\t\tselect {\n\t\tcase <-ctx.Done():\n\t\t\treturn ctx.Err()\n\t\tcase outQ <- rpc:\n\t\t\treturn nil\n\t\t}", "\t\toutQ <- rpc\n\t\treturn nil")
+mut("c20_end_error_dropped", "C20", "internal/util.go", "\t\tif appErr != nil && !errors.Is(appErr, io.EOF) {", "\t\tif appErr != nil && errors.Is(appErr, io.EOF) {")
+mut("c20_begin_twice", "C20", "internal/util.go", "\t\tsh.HandleRPC(ctx, statsBegin)\n", "\t\tsh.HandleRPC(ctx, statsBegin)\n\t\tsh.HandleRPC(ctx, statsBegin)\n")
+mut("c14_failed_open_no_teardown", "C14", "client.go", "\t\tteardown()\n\t\treturn nil, err", "\t\treturn nil, err")
+mut("c10_serve_no_drain", "C10", "server.go", "\th.cancelAndWaitForStreams()\n", "")
+
 only = sys.argv[1] if len(sys.argv) > 1 else ""
 os.makedirs(os.path.join(here, 'mutants'), exist_ok=True)
 for name, props, file, old, new in M:
